@@ -167,27 +167,46 @@ func (w *c13world) entries() []rec {
 
 // mutate sets id to key (nil pointer: value without index key; del: delete).
 func (w *c13world) mutate(id string, key *string, del bool, other int) error {
+	return w.mutateTxn(id, []mutOp{{key, del}}, other)
+}
+
+type mutOp struct {
+	key *string
+	del bool
+}
+
+// mutateTxn performs several mutations of one id inside ONE write transaction (optionally reading first).
+func (w *c13world) mutateTxn(id string, ops []mutOp, other int) error {
 	t := w.bs.Write(id)
 	defer t.Close()
-	var err error
-	switch {
-	case del:
-		err = t.Delete()
-		if err == nil {
-			delete(w.model, id)
+	var firstErr error
+	if other%3 == 0 {
+		t.Value() // populate whatever the transaction caches
+	}
+	for _, o := range ops {
+		var err error
+		switch {
+		case o.del:
+			err = t.Delete()
+			if err == nil {
+				delete(w.model, id)
+			}
+		case t.Exists():
+			err = t.Update(mkIval(o.key, other))
+			if err == nil {
+				w.model[id] = o.key
+			}
+		default:
+			err = t.Create(mkIval(o.key, other))
+			if err == nil {
+				w.model[id] = o.key
+			}
 		}
-	case t.Exists():
-		err = t.Update(mkIval(key, other))
-		if err == nil {
-			w.model[id] = key
-		}
-	default:
-		err = t.Create(mkIval(key, other))
-		if err == nil {
-			w.model[id] = key
+		if err != nil && firstErr == nil {
+			firstErr = err
 		}
 	}
-	return err
+	return firstErr
 }
 
 func mkIval(key *string, other int) ival {
@@ -258,7 +277,12 @@ func RunC13(c *core.Ctx) {
 		}
 		for step := 0; step < 8; step++ {
 			id, key, del := randMutation(w, rng)
-			w.mutate(id, key, del, step)
+			ops := []mutOp{{key, del}}
+			for rng.Intn(3) == 0 && len(ops) < 3 { // several mutations of the id in one transaction
+				_, k2, d2 := randMutation(w, rng)
+				ops = append(ops, mutOp{k2, d2})
+			}
+			w.mutateTxn(id, ops, step)
 			w.qs.Flush()
 			ents := w.entries()
 			for k := 0; k < c.Pick(14, 40); k++ {
